@@ -10,8 +10,8 @@ prop("C17", "exploration",
      "every receiver and the drain see increasing ids; a Recv that started after an item had been queued never reports "
      "end-of-stream while that item is still queued; errors are end-of-stream, timeout (errors.Is os.ErrDeadlineExceeded) or the "
      "Cancel error; no goroutine is left; also run under the race detector. Non-trivial = >=3 goroutines with at least one "
-     "SetDeadline/Cancel/Close (transport half: or Roam) racing; distinct by case hash. Transport half: programs of 2-6 goroutines x 1-5 operations over a "
-     "real Client (Handshake, Read - with a 70000-byte buffer or one of 1..100 bytes -, ReadMsg, Write, WriteMsg, WriteMsgBurst, Roam, SetDeadline, SetReadDeadline, Close), the accepted Handle (same minus "
+     "SetDeadline/Cancel/Close (transport half: or Roam, or a further client with a half-open handshake) racing; distinct by case hash. Transport half: programs of 2-6 goroutines x 1-5 operations over a "
+     "real Client (Handshake, Read - with a 70000-byte buffer or one of 1..100 bytes -, ReadMsg, Write, WriteMsg, WriteMsgBurst, WriteMsgPaced, Roam, SetDeadline, SetReadDeadline, Close), the accepted Handle (same minus "
      "Handshake) and the Server (AcceptTimeout, Close) on vlib/simnet against an honest, a silent or a vanishing peer, both handshake "
      "modes, HSTimeout / HSDeadline set or not, fault 'Close of the underlying socket reports an error' on the server's and/or the "
      "client's socket (vlib/simnet FailClose: the socket is closed all the same) in half of the cases, with a yield schedule at the verif-tagged points in Client.Close/Handshake, "
@@ -29,6 +29,16 @@ prop("C17", "exploration",
      "goroutines (reads, deadlines, closes ...). Labels peer-roams-while-a-write-is-inside-the-socket:Client/:Handle (from the logged "
      "virtual intervals) ~ 8 % of the cases each, equally in the -race unit. With a slow socket the writers of one endpoint take turns on a "
      "channel semaphore (a writer waiting for the handle's write MUTEX would freeze the bubble's clock). "
+     "Half-open handshakes on the server (one case in four; labels half-open-handshake:*): 1-3 FURTHER CLIENTS (own address and certificate) start, 0 / 1 / 20 / 400 ms "
+     "into the case, a handshake that the network cuts short - discoverable mode: the client's ClientAuth or the server's ServerAuth is lost (simnet Filter); hidden mode: "
+     "the client's datagram comes from source port 0, so the server registers the handshake and its answer fails inside the socket (EINVAL) - which leaves an entry in the "
+     "server's handshake table and one in its session table; the server's HandshakeTimeout is 50 ms / 300 ms / 2 s (virtual) and the further client stays until it has passed "
+     "(or leaves at once: the server is then also closed while the timer is pending), so the timer the server armed fires on its own goroutine and removes the entries WHILE "
+     "the program runs on the established session; in half of these cases one more goroutine does WriteMsgPaced on the client (2-16 WriteMsg calls 1 / 20 / 150 ms apart: the "
+     "server's receive loop looks sessions up before, at and after the expiry). The further clients never look at the server's state and the labels are computed from the "
+     "network log after everything has stopped, so the harness does not order the timer against the receive loop: an unsynchronised access of either to the tables is a "
+     "report of the race detector (-race unit, ~20 % of its cases have a handshake that expires during the case) or the runtime's concurrent-map fatal error. Their Handshake "
+     "and Close calls are subject to the termination oracle like all others. One other case in six has the short server timeout without further clients. "
      "One case in ten is the drain scenario: k messages delivered into the receive queue, then Close, then reads until end-of-stream. A "
      "quarter of them read with ReadMsg into a large buffer (all k messages, then end-of-stream); the others draw 1-5 messages of "
      "1..5000 bytes and a list of reader calls - Read or ReadMsg, buffer 1..9 bytes, just shorter than one of the messages, half of one, "
@@ -51,7 +61,8 @@ prop("C17", "exploration",
           "clock with schedule perturbation at instrumented points and under the race detector; termination of every call, "
           "idempotent close, exactly-once in-order delivery and drain-before-end-of-stream (also with read buffers shorter than the "
           "messages and Close in the middle of a message) are checked from the recorded history; a third of the transport programs let the "
-          "peer roam while the application writes over a slow socket, so that the receive loop's address update meets in-flight writes.",
+          "peer roam while the application writes over a slow socket, so that the receive loop's address update meets in-flight writes; a quarter "
+          "leave half-open handshakes of further clients on the server and let the server's handshake timer expire while the established session is in use.",
      note="trusts testing/synctest, the race detector, rapid; interleavings are explored by perturbation, not exhaustively",
      technique="property-based testing (rapid) of concurrent programs with schedule perturbation under a virtual clock + race detector; history oracle",
      design="DESIGN.md section 4, C17")
